@@ -38,6 +38,13 @@
 (* bound given by the constants (Theorem: Plan has no inversion; CodedIsPlan), *)
 (* RecInit walks over call records [id, kind, inst, ans, ...] made on the     *)
 (* real schedulers (RecChecked prints every failing clause of every record).  *)
+(* All times of an instance are microseconds.  The *realisation* of a record  *)
+(* (r.real: the EventTime unit - US / MS / S - in which every single time of  *)
+(* the real objects is expressed, and the resource instances over which a     *)
+(* worker's quantity of one resource name is split) is not part of the        *)
+(* instance: the policies must not depend on it.  RealisationOK ties what is  *)
+(* read back from the real objects to the instance, BlindKeys / UnitStats     *)
+(* count the records on which a policy that forgets the unit would differ.    *)
 EXTENDS Integers, Sequences, FiniteSets, TLC, LedgerOps
 
 CONSTANTS Kinds,        \* subset of {"EDF", "FIFO", "LSF"}
@@ -90,6 +97,28 @@ VectorModelOK(names, maxq) ==
         IN  /\ VFits(av, dem) <=> FitsEach(insts, L, d)
             /\ VFits(av, dem) <=> CanAllocMulti(insts, L, d)
             /\ VFits(av, dem) => MultiAlloc(insts, L, d, "x", 1).av = VSub(av, dem)
+
+\* The same for a worker that lists a resource name under two ids (instances "a"
+\* and "b" holding x[k] and av[k] - x[k]): with wildcard requests only the sum per
+\* name matters, before and after an allocation (first fit across the instances).
+SplitInsts(names, av, x) ==
+    [j \in 1..(2 * Len(names)) |->
+        LET k == (j + 1) \div 2
+        IN  [name |-> names[k], id |-> IF j % 2 = 1 THEN "a" ELSE "b",
+             cap |-> IF j % 2 = 1 THEN x[k] ELSE av[k] - x[k]]]
+VectorModelSplitOK(names, maxq) ==
+    \A av, dem, x \in [1..Len(names) -> 0..maxq] :
+        (\A k \in 1..Len(names) : x[k] <= av[k]) =>
+            LET insts == SplitInsts(names, av, x)
+                L     == EmptyLedger(insts, {"x"})
+                d     == LDem(names, dem)
+                any   == [k \in 1..Len(names) |-> [name |-> names[k], id |-> "any", q |-> 0]]
+            IN  /\ \A k \in 1..Len(names) : AvailQ(insts, L.av, any[k]) = av[k]
+                /\ VFits(av, dem) <=> FitsEach(insts, L, d)
+                /\ VFits(av, dem) <=> CanAllocMulti(insts, L, d)
+                /\ VFits(av, dem) =>
+                      LET M == MultiAlloc(insts, L, d, "x", 1)
+                      IN  \A k \in 1..Len(names) : AvailQ(insts, M.av, any[k]) = av[k] - dem[k]
 
 -----------------------------------------------------------------------------
 (* instances *)
@@ -224,10 +253,13 @@ LiveAv(I)      == Tup([p \in PoolIds(I) |-> I.pools[p].av])
 StartAv(I)     == IF I.preemptive THEN Tup([p \in PoolIds(I) |-> I.pools[p].cap]) ELSE LiveAv(I)
 NonePlaced(I)  == Tup([t \in TaskIds(I) |-> Unplaced])
 
-\* the intended algorithm: the reported strategy is what is virtually allocated
-Plan(k, I) ==
-    LET ord == Order(k, I)
+\* first fit in the stable order of the keys K
+PlanWith(K, I) ==
+    LET ord == OrderOf(K)
     IN  [order |-> ord, place |-> Run(FALSE, I, ord, 1, StartAv(I), NonePlaced(I))]
+
+\* the intended algorithm: the reported strategy is what is virtually allocated
+Plan(k, I) == PlanWith(Keys(k, I), I)
 
 \* the algorithm as written: LSF allocates with place_task(task) (no strategy)
 CodedPlan(k, I) ==
@@ -331,7 +363,7 @@ BoundOK ==
 (* vacuity counters (TLC registers; the runs use a single worker) *)
 Bump(r, cond) == IF cond THEN TLCSet(r, TLCGet(r) + 1) ELSE TRUE
 
-NStats == 9
+NStats == 13    \* 10..13 are bumped by UnitStats (records only)
 Stats(k, I, a) ==
     LET T == TaskIds(I)
         K == Keys(k, I)
@@ -385,22 +417,84 @@ CodedFeasible    == LET I == InstanceOf(sel, pix) IN Feasible(I, CodedPlan(kind,
 
 -----------------------------------------------------------------------------
 (* R / T: call records made on the real schedulers.                          *)
-(* record: [id, kind, inst, ans, bound (claims InBound), before, after]       *)
-(* before / after: availability per pool / worker / resource name read from   *)
-(* the live pools just before and after schedule().                          *)
+(* record: [id, kind, inst, ans, bound (claims InBound), before, after,       *)
+(*          remaining, seen, listed]                                          *)
+(* before / after: availability per pool / worker / resource name / listed    *)
+(* instance, read from the live pools just before and after schedule().       *)
+(* seen: the times as the real objects carry them, read back just before      *)
+(* schedule(): [now, tasks : per task [deadline, release, remaining, rt : per   *)
+(* strategy]], each time as [n |-> EventTime.time, u |-> name of its Unit].    *)
+(* listed: per pool / worker / resource name the total quantities of the       *)
+(* instances the real worker lists under that name (dict order).               *)
 RecInit ==
     /\ idx \in 1..NRecords
     /\ kind = "" /\ sel = <<>> /\ pix = 0
 
+UnitUs(u) == CASE u = "US" -> 1 [] u = "MS" -> 1000 [] u = "S" -> 1000000
+Us(e) == e.n * UnitUs(e.u)
+
+\* the real objects denote the instance: every time, converted here from its own
+\* unit, is the instance's microsecond value; the instances a worker lists under a
+\* name add up to the capacity of that name
+RealisationOK(r) ==
+    LET I == r.inst
+    IN  /\ Us(r.seen.now) = I.now
+        /\ Len(r.seen.tasks) = Len(I.tasks)
+        /\ \A t \in TaskIds(I) :
+              LET x == r.seen.tasks[t]
+              IN  /\ Us(x.deadline) = I.tasks[t].deadline
+                  /\ Us(x.release) = I.tasks[t].release
+                  /\ Len(x.rt) = Len(I.tasks[t].strats)
+                  /\ \A s \in 1..Len(x.rt) : Us(x.rt[s]) = I.tasks[t].strats[s].rt
+        /\ Len(r.listed) = Len(I.pools) /\ Len(r.before) = Len(I.pools)
+        /\ \A p \in PoolIds(I) :
+              /\ Len(r.listed[p]) = Len(I.pools[p].cap) /\ Len(r.before[p]) = Len(I.pools[p].cap)
+              /\ \A w \in 1..Len(I.pools[p].cap) :
+                    /\ Len(r.listed[p][w]) = NRes(I)
+                    /\ Len(r.before[p][w]) = NRes(I)
+                    /\ \A k \in 1..NRes(I) :
+                          /\ SumTo(r.listed[p][w][k], Len(r.listed[p][w][k])) = I.pools[p].cap[w][k]
+                          \* what is free on the instances adds up to the pool's availability
+                          /\ Len(r.before[p][w][k]) = Len(r.listed[p][w][k])
+                          /\ SumTo(r.before[p][w][k], Len(r.before[p][w][k])) = I.pools[p].av[w][k]
+
+\* the keys of a policy that forgets the unit: it compares / subtracts the bare
+\* EventTime.time counts (equal to Keys when every time is in microseconds)
+BlindKeys(k, r) ==
+    Tup([t \in TaskIds(r.inst) |->
+        LET x == r.seen.tasks[t]
+        IN  CASE k = "EDF"  -> <<x.deadline.n, r.inst.tasks[t].graph>>
+              [] k = "FIFO" -> <<x.release.n, 0>>
+              [] k = "LSF"  -> <<x.deadline.n - r.seen.now.n - x.remaining.n, 0>>])
+
+\* vacuity counters of the realisation: how many records would tell a unit-blind
+\* policy from the specified one
+UnitStats(r) ==
+    LET k == r.kind  I == r.inst
+        B == BlindKeys(k, r)
+    IN  /\ Bump(10, \/ r.seen.now.u # "US"
+                    \/ \E t \in TaskIds(I) :
+                          LET x == r.seen.tasks[t]
+                          IN  \/ x.deadline.u # "US" \/ x.release.u # "US" \/ x.remaining.u # "US"
+                              \/ \E s \in 1..Len(x.rt) : x.rt[s].u # "US")
+        /\ Bump(11, OrderOf(B) # Order(k, I))
+        /\ Bump(12, ~NoInversion(k, I, PlanWith(B, I)))
+        /\ Bump(13, \E p \in PoolIds(I) : \E w \in 1..Len(r.listed[p]) :
+                        \E n \in 1..Len(r.listed[p][w]) : Len(r.listed[p][w][n]) > 1)
+
 Clauses == {"harness.wf", "harness.bound", "harness.build", "C13.no_inversion", "C13.plan_eq",
-            "C13.order_key", "side.feasible", "side.pools_unchanged", "model.coded_eq"}
+            "C13.order_key", "side.feasible", "side.pools_unchanged", "side.remaining", "model.coded_eq"}
 
 Holds(c, r) ==
     LET k == r.kind  I == r.inst  a == r.ans
     IN  CASE c = "harness.wf"    -> /\ WellFormedInst(I) /\ WellFormedAns(I, a) /\ k \in {"EDF", "FIFO", "LSF"}
                                     /\ (I.preemptive => k # "FIFO")      \* FIFOScheduler asserts it
           [] c = "harness.bound" -> r.bound => (InBound(I) /\ k \in Kinds)
-          [] c = "harness.build" -> r.before = LiveAv(I) /\ r.remaining = Tup([t \in TaskIds(I) |-> Remaining(I.tasks[t])])
+          [] c = "harness.build" -> RealisationOK(r)
+          \* Task.remaining_time (converted by the code / converted here from its own unit) is
+          \* the remaining time of the statement: where it is not, LSF's key is not the slack
+          [] c = "side.remaining" -> /\ r.remaining = Tup([t \in TaskIds(I) |-> Remaining(I.tasks[t])])
+                                     /\ \A t \in TaskIds(I) : Us(r.seen.tasks[t].remaining) = Remaining(I.tasks[t])
           [] c = "C13.no_inversion" -> NoInversion(k, I, a)
           [] c = "C13.plan_eq"   -> SameAsPlan(k, I, a)
           [] c = "C13.order_key" -> OrderKey(k, I, a)
@@ -412,10 +506,13 @@ Expected(c, r) ==
     CASE c = "C13.plan_eq"      -> Plan(r.kind, r.inst)
       [] c = "model.coded_eq"   -> CodedPlan(r.kind, r.inst)
       [] c = "C13.order_key"    -> [key |-> Keys(r.kind, r.inst)]
+      [] c = "side.remaining"   -> [t \in TaskIds(r.inst) |-> Remaining(r.inst.tasks[t])]
       [] c = "C13.no_inversion" ->
             [inverted |-> {t \in TaskIds(r.inst) : Inverted(r.kind, r.inst, r.ans, t)},
              prio |-> [t \in TaskIds(r.inst) |-> Prios(r.kind, r.inst)[t][1]],
-             plan |-> Plan(r.kind, r.inst)]
+             plan |-> Plan(r.kind, r.inst),
+             \* diagnosis: the answer is what a policy that forgets the units returns
+             answer_is_unit_blind_plan |-> r.ans.place = PlanWith(BlindKeys(r.kind, r), r.inst).place]
       [] OTHER -> <<>>
 
 \* every failing clause of every record is printed ("@@ id clause expected");
@@ -426,4 +523,5 @@ RecChecked ==
         F  == IF wf THEN {c \in Clauses : ~Holds(c, r)} ELSE {"harness.wf"}
     IN  /\ \A c \in F : PrintT("@@ " \o ToString(r.id) \o " " \o c \o " " \o ToString(Expected(c, r)))
         /\ IF wf THEN Stats(r.kind, r.inst, r.ans) /\ Bump(NStats + 1, "C13.plan_eq" \notin F) ELSE TRUE
+        /\ IF wf /\ "harness.build" \notin F THEN UnitStats(r) ELSE TRUE
 =============================================================================
